@@ -31,6 +31,7 @@ class Spec:
     noise: int = 0                      # >0: write tagged lines to stderr (1: whole+split+long lines, 2: also a record-like line, 4: also an unterminated last line)
     seq: Tuple[Tuple[str, Tuple[str, ...]], ...] = ()   # "driver": commands run in order inside this one script, failures recorded not fatal
     fail_undeclared: bool = False       # the fail flag is read without declaring it as a dependency
+    post: Tuple[str, ...] = ()          # dependencies requested AFTER the output was written (and redo-stamp has run)
     sync: Tuple[Tuple[str, str, str], ...] = ()   # E2 only: (position start|mid|end, action wait|set, flag) -- scripts that wait for each other
 
     def subst(self, arg2: str) -> "Spec":
@@ -41,7 +42,8 @@ class Spec:
         return Spec(self.kind, tuple(f(d) for d in self.deps), sel, tuple(f(d) for d in self.ifcreate),
                     tuple(f(d) for d in self.ifcreate_raw),
                     f(self.fail) if self.fail else None, self.out, self.proj, self.split, self.tag, self.noise,
-                    tuple((c, tuple(f(d) for d in ds)) for c, ds in self.seq), self.fail_undeclared, self.sync)
+                    tuple((c, tuple(f(d) for d in ds)) for c, ds in self.seq), self.fail_undeclared,
+                    tuple(f(d) for d in self.post), self.sync)
 
 
 @dataclass
@@ -206,6 +208,8 @@ def script_text(spec: Spec, variant: int, dofile: str, gates: bool = False) -> s
         else:
             L.append('printf "%s(%s)\\n" "$1" "$c"')
     L.append('rvk e')
+    if spec.post:
+        L.append(ifchange([d.replace("%", "$2") for d in spec.post]))
     sync("end")
     if spec.noise:
         L.append('echo "L $1 4 after dependencies" >&2')
@@ -224,7 +228,7 @@ def script_text(spec: Spec, variant: int, dofile: str, gates: bool = False) -> s
 def S(**kw):
     if "seq" in kw:
         kw["seq"] = tuple((c, tuple(ds)) for c, ds in kw["seq"])
-    for k in ("deps", "ifcreate", "ifcreate_raw"):
+    for k in ("deps", "ifcreate", "ifcreate_raw", "post"):
         if k in kw:
             kw[k] = tuple(kw[k])
     if "sel" in kw and kw["sel"]:
